@@ -1616,6 +1616,7 @@ func (inv *Invoker) acquire(usePool bool) {
 		inv.callee.(*CompiledFunction),
 		usePool,
 	)
+	verifSync("pool.registered", inv.child)
 	if usePool {
 		inv.dorelease = true
 	}
@@ -1705,7 +1706,6 @@ func (v *vmPool) _acquire(vm *VM, cf *CompiledFunction) *VM {
 		v.vms = make(map[*VM]struct{})
 	}
 	v.vms[vm] = struct{}{}
-	verifSync("pool.registered", vm)
 
 	return vm
 }
